@@ -36,6 +36,15 @@ def canon_defs(b, objects):
                     sv = "$WD" + sv[len(b.wd):]
                 return {"t": "path", "b": list(sv.encode())}
             if v["type"] == "enum":
+                # an IntEnum member is an int (a str-based Enum member a str) for the hash and for the exported
+                # heap: it is compared by that value
+                import importlib
+                from experimaestro.core.objects import getqualattr
+                member = getqualattr(importlib.import_module(v["module"]), v["enum"])[v["value"]]
+                if isinstance(member, int):
+                    return {"t": "int", "v": int(member)}
+                if isinstance(member, str):
+                    return {"t": "str", "b": list(str.__str__(member).encode())}
                 return {"t": "enum", "b": list(f"{v['module']}.{v['enum']}:{v['value']}".encode())}
             return {"t": "unknown", "py": v["type"]}
         if v is None:
@@ -175,7 +184,11 @@ def run_case(case, wd):
     export2 = b.export()       # objects discovered meanwhile keep their indices
     objects = json.loads(json.dumps(objects))
     res["defs"] = canon_defs(b, objects)
-    loaded = ConfigInformation.load_objects(objects, as_instance=False, discard_id=True)
+    try:
+        loaded = ConfigInformation.load_objects(objects, as_instance=False, discard_id=True)
+    except Exception as e:  # noqa
+        res["load_error"] = type(e).__name__ + ":" + str(e)[:200]
+        return res
     res["reloaded"], res["ids_after"] = export_reloaded(b, objects, loaded)
     # path 2: state_dict / from_state_dict ; path 3: save / load
     st = json.loads(json.dumps(serialization.state_dict(SerializationContext(), root)))
